@@ -103,13 +103,18 @@ AddAnc(D, hist, acc, s, upto) ==
 EmptyEntry == [enter |-> {}, defent |-> {}, dhc |-> <<>>]
 
 \* the document root is never reported as entered (the harness strips it from observations)
-EntrySet(D, hist, tseq) ==
+\* dhist = the history before the exits of this microstep: the domain of a transition is the one its exit set was computed
+\* with (the pseudo-code of the Recommendation calls getTransitionDomain again after exitStates has recorded new history
+\* values; for a transition from inside a state to that state's own history the second result is smaller than the first
+\* and the ancestors exited are not entered again - the configuration would become illegal)
+EntrySetD(D, hist, dhist, tseq) ==
   LET r == FoldL(LAMBDA acc, t :
                    LET a1 == FoldL(LAMBDA a, x : AddDesc(D, hist, a, x), acc, Trans(D, t).tgt)
-                       dom == Domain(D, hist, t)
+                       dom == Domain(D, dhist, t)
                    IN FoldL(LAMBDA a, x : AddAnc(D, hist, a, x, dom), a1, SortedSeq(EffTargets(D, hist, t))),
                  EmptyEntry, tseq)
   IN [r EXCEPT !.enter = @ \ {Root}]
+EntrySet(D, hist, tseq) == EntrySetD(D, hist, hist, tseq)
 
 \* ---------- event matching on token sequences
 IsPrefixSeq(p, q) == Len(p) <= Len(q) /\ \A i \in 1..Len(p) : p[i] = q[i]
@@ -306,14 +311,16 @@ EnterOne(D, es, s, x) ==
                   ELSE f
      ELSE e
 
-EnterStates(D, st, tseq) ==
-  LET es == EntrySet(D, st.hist, tseq) IN
-  FoldL(LAMBDA s, x : EnterOne(D, es, s, x), st, SortedSeq(es.enter))
+EnterStatesD(D, st, dhist, tseq) ==
+  LET es == EntrySetD(D, st.hist, dhist, tseq) IN
+  \* (a state that is still active - it was not exited in this microstep - is not entered again)
+  FoldL(LAMBDA s, x : EnterOne(D, es, s, x), st, SortedSeq(es.enter \ st.cfg))
+EnterStates(D, st, tseq) == EnterStatesD(D, st, st.hist, tseq)
 
 Microstep(D, st, tseq) ==
   LET a == ExitStates(D, st, tseq)
       b == FoldL(LAMBDA s, t : ExecBlock(D, s, Trans(D, t).block), a, tseq)
-  IN EnterStates(D, b, tseq)
+  IN EnterStatesD(D, b, st.hist, tseq)
 
 \* exitInterpreter: every active state in exit order: onexit content, removal (exits are not traced)
 ExitInterpreter(D, st) ==
